@@ -23,7 +23,8 @@ def fctMark : BitVec 64 := BitVec.ofNat 64 Gen.DQ_FCT_MARK
 theorem DQ_FCT_BIT_eq_one : Gen.DQ_FCT_BIT = 1 := by decide
 theorem DQ_FCT_MARK_even : Gen.DQ_FCT_MARK % 2 = 0 := by decide
 theorem DQ_FCT_MARK_lt : Gen.DQ_FCT_MARK < 2 ^ 64 := by decide
-theorem DEFER_QUEUE_SIZE_pow2 : Gen.DEFER_QUEUE_SIZE = 2 ^ 12 := by decide
+/-- `DEFER_QUEUE_SIZE` is a power of two ("Must be power of 2") -/
+theorem DEFER_QUEUE_SIZE_pow2 : Gen.DEFER_QUEUE_SIZE = 2 ^ Nat.log2 Gen.DEFER_QUEUE_SIZE := by decide +kernel
 theorem DEFER_QUEUE_SIZE_ge4 : 4 ≤ Gen.DEFER_QUEUE_SIZE := by decide
 theorem DEFER_QUEUE_MASK_eq : Gen.DEFER_QUEUE_MASK = Gen.DEFER_QUEUE_SIZE - 1 := by decide
 theorem fctBit_eq_one : fctBit = 1#64 := by decide
